@@ -5,6 +5,7 @@ import (
 	"encoding/json"
 	"fmt"
 	"math/rand"
+	"path/filepath"
 	"strings"
 
 	"github.com/MichaelMure/git-bug/cache"
@@ -27,6 +28,8 @@ type hostileIdentity struct {
 	Versions  []idVersionSpec
 	RefName   string
 	RefTarget string
+	// Unrelated: the same version blobs as the victim holds, but in commits of their own (another root commit)
+	Unrelated bool
 }
 
 type idMut struct {
@@ -131,6 +134,9 @@ func identityMutations() []idMut {
 		}
 		h.Versions[at].merge = true
 	}})
+	// a chain that starts with the very same first version (hence the same id and a correct ref name) but in another
+	// root commit: an unrelated history under the name of an identity the victim holds, not a fast-forward of it
+	ms = append(ms, idMut{Name: "idc:unrelated-root-same-first-version", Class: "must-reject", Apply: func(h *hostileIdentity, at int) { h.Unrelated = true }})
 	ms = append(ms, idMut{Name: "idr:id-mismatch", Class: "must-reject", Apply: func(h *hostileIdentity, at int) { h.RefName = strings.Repeat("d0", 32) }})
 	ms = append(ms, idMut{Name: "idr:name-not-an-id", Class: "must-reject", Apply: func(h *hostileIdentity, at int) { h.RefName = "mallory" }})
 	ms = append(ms, idMut{Name: "idr:name-40-hex", Class: "must-reject", Apply: func(h *hostileIdentity, at int) { h.RefName = strings.Repeat("b2", 20) }})
@@ -249,23 +255,41 @@ func runHostileIdentity(c HostileCase, victim, evil *world.Replica, hauthor *ide
 	}
 	hist := &hostileIdentity{}
 	localName := ""
-	var reuse []repository.Hash
+	var reuse, baseHashes []repository.Hash
 	if c.Local == "behind" {
 		base := &hostileIdentity{}
 		for i := 0; i < n; i++ {
 			base.Versions = append(base.Versions, validIdVersion(i, c.Mut))
 		}
-		head, cid, baseHashes, err := writeHostileIdentityReuse(evil.Repo, base, nil)
+		var head repository.Hash
+		var cid string
+		var err error
+		src, srcName := evil, "evil"
+		if c.Mut == "idc:unrelated-root-same-first-version" {
+			// the victim got the identity from a well-behaved remote; the hostile one never served it before
+			good, gerr := world.InitRepo(filepath.Join(filepath.Dir(victim.Dir), "good"), true)
+			if gerr != nil {
+				res.HarnessError = gerr.Error()
+				return res
+			}
+			defer func() { _ = good.Repo.Close() }()
+			if gerr := victim.Tested.AddRemote("good", good.Tested.GetLocalRemote()); gerr != nil {
+				res.HarnessError = gerr.Error()
+				return res
+			}
+			src, srcName = good, "good"
+		}
+		head, cid, baseHashes, err = writeHostileIdentityReuse(src.Repo, base, nil)
 		if err != nil {
 			res.HarnessError = err.Error()
 			return res
 		}
 		reuse = baseHashes
-		if err := evil.Repo.UpdateRef("refs/identities/"+cid, head); err != nil {
+		if err := src.Repo.UpdateRef("refs/identities/"+cid, head); err != nil {
 			res.HarnessError = err.Error()
 			return res
 		}
-		if ml := victim.Pull("evil"); ml.Err != nil {
+		if ml := victim.Pull(srcName); ml.Err != nil {
 			res.HarnessError = "valid prefix pull: " + ml.Err.Error()
 			return res
 		}
@@ -304,7 +328,23 @@ func runHostileIdentity(c HostileCase, victim, evil *world.Replica, hauthor *ide
 	if c.Place == "local" {
 		reuse = nil
 	}
-	head, cid, _, err := writeHostileIdentityReuse(target, hist, reuse)
+	if hist.Unrelated {
+		if c.Local != "behind" || c.Place == "local" {
+			res.Noop = true
+			return res
+		}
+		// same blobs and trees, other commits: the commit author differs
+		reuse = nil
+		if err := evil.Repo.LocalConfig().StoreString("author.name", "Unrelated Committer"); err != nil {
+			res.HarnessError = err.Error()
+			return res
+		}
+	}
+	head, cid, all, err := writeHostileIdentityReuse(target, hist, reuse)
+	if err == nil && hist.Unrelated && len(baseHashes) > 0 && all[0] == baseHashes[0] {
+		res.HarnessError = "unrelated chain got the same root commit"
+		return res
+	}
 	if err != nil {
 		res.HarnessError = "write hostile identity: " + err.Error()
 		return res
